@@ -221,6 +221,32 @@ def build_expr(head, secs, report):
                    "rewrites": {}, "rx": [], "contracted": False})
     return text
 
+def add_std_extra(tpl):
+    """auto-include shims/std_extra.rs right after `verus! {`, minus the items the unit specifies itself"""
+    if "//@no-std-extra" in tpl or "pub mod std_extra" in tpl:
+        return tpl
+    try:
+        lines = open(os.path.join(VERIF, "shims", "std_extra.rs")).read().split("\n")
+    except OSError:
+        return tpl
+    flat = re.sub(r"\s+", "", tpl)
+    keep = []
+    i = 0
+    while i < len(lines):
+        ln = lines[i]
+        if ln.strip().startswith("//@@ "):
+            key = ln.strip()[5:]
+            ty, fn = key.split("::")
+            pat = re.compile(r"assume_specification(<[^\[]*>)?\[(<)?%s(::<[^\]]*?>)?(asOrd>)?::%s\]" % (re.escape(ty), re.escape(fn)))
+            if pat.search(flat):
+                i += 2; continue
+            keep.append(lines[i + 1]); i += 2; continue
+        keep.append(ln); i += 1
+    m = re.search(r"verus!\s*\{", tpl)
+    if not m:
+        return tpl
+    return tpl[:m.end()] + "\n" + "\n".join(keep) + "\n" + tpl[m.end():]
+
 def assemble(unit, probe=False):
     udir = os.path.join(VERIF, "units", unit)
     tpl = open(os.path.join(udir, "unit.rs")).read()
@@ -240,6 +266,7 @@ def assemble(unit, probe=False):
         tpl2 = re.sub(r"/\*@include\b(.*?)@\*/", lambda m: open(os.path.join(VERIF, m.group(1).strip())).read(), tpl, flags=re.S)
         if tpl2 == tpl: break
         tpl = tpl2
+    tpl = add_std_extra(tpl)
     # record where each block lands
     out = []
     pos = 0
